@@ -340,3 +340,32 @@ def rules(ctx):
     sm = [c for c in calls_in(cf.node, 'set_mapping')]
     ctx.inst('R19.5', cf, sm[0] if sm else 'set_mapping', bool(sm), "mapping restored through set_mapping" if sm else
              "the mapping is never restored")
+
+
+def thorough_rules(ctx):
+    """R19.1 re-evaluated for every concrete model class as the receiver."""
+    P, R = ctx.prog, ctx.res
+    ctx.rule('R19.1c', "R19.1 for the methods of every model class in that class's receiver context", floor=300)
+    for c in sorted(x.name for x in P.subclasses_of('DictArithmetic')):
+        E = Effects(P, R, context=c)
+        E.build()
+        seen = set()
+        for K in P.cls(c).mro:
+            if isinstance(K, str):
+                continue
+            for name, fn in K.methods.items():
+                if name in seen or P.lookup_method(c, name) is not fn:
+                    continue
+                seen.add(name)
+                s = E.summary(fn)
+                sn = R.self_name(fn)
+                is_mut = name in MUTATORS or name.startswith('add_constraint_') or fn.is_setter
+                for p in fn.all_params:
+                    if p == sn and is_mut:
+                        continue
+                    if fn.qual in OUT_PARAM_HELPERS and OUT_PARAM_HELPERS[fn.qual] == p:
+                        continue
+                    bad = p in s['mut'] and (fn.qual, p) not in EXEMPT
+                    ctx.inst('R19.1c', fn, '%s.%s(%s)' % (c, name, p), not bad,
+                             "never mutated" if not bad else
+                             "with receiver %s, %s may mutate its %s `%s`" % (c, fn.qual, 'receiver' if p == sn else 'argument', p))
